@@ -2122,9 +2122,10 @@ impl<'store> FindTextSelectionsIter<'store> {
         match self.operator {
             TextSelectionOperator::Embeds { .. } => {
                 for reftextselection in self.refset.iter() {
+                    //(the upper bound of range() is exclusive, +1 so a zero-width selection at the very end is included)
                     self.textseliters.push((
                         self.resource
-                            .range(reftextselection.begin(), reftextselection.end()),
+                            .range(reftextselection.begin(), reftextselection.end() + 1),
                         true,
                     ));
                 }
@@ -2156,8 +2157,10 @@ impl<'store> FindTextSelectionsIter<'store> {
                 } else {
                     0
                 };
+                //(the upper bound of range() is exclusive, +1 so a zero-width selection right at our begin is included)
                 self.textseliters.push((
-                    self.resource.range(begin, self.refset.begin().unwrap()),
+                    self.resource
+                        .range(begin, self.refset.begin().unwrap() + 1),
                     true,
                 ));
             }
@@ -2179,10 +2182,11 @@ impl<'store> FindTextSelectionsIter<'store> {
             }
             TextSelectionOperator::Before { limit, .. } => {
                 //self comes before found items, so find items after self:
+                //(the upper bound of range() is exclusive, hence the +1)
                 let end = if let Some(limit) = limit {
-                    self.refset.end().unwrap() + limit
+                    self.refset.end().unwrap() + limit + 1
                 } else {
-                    self.resource.textlen()
+                    self.resource.textlen() + 1
                 };
                 self.textseliters
                     .push((self.resource.range(self.refset.end().unwrap(), end), true));
@@ -2214,15 +2218,17 @@ impl<'store> FindTextSelectionsIter<'store> {
                         } else {
                             0
                         };
-                        self.textseliters
-                            .push((self.resource.range(begin, reftextselection.end()), true));
+                        self.textseliters.push((
+                            self.resource.range(begin, reftextselection.end() + 1),
+                            true,
+                        ));
                     } else {
                         let mut end = reftextselection.end() + limit;
                         if end > self.resource.textlen() {
                             end = self.resource.textlen();
                         }
                         self.textseliters.push((
-                            self.resource.range(reftextselection.end(), end),
+                            self.resource.range(reftextselection.end(), end + 1),
                             false, //search backwards!!
                         ));
                     }
@@ -2232,12 +2238,14 @@ impl<'store> FindTextSelectionsIter<'store> {
                 let halfway = self.resource.textlen() / 2;
                 for reftextselection in self.refset.iter() {
                     if reftextselection.begin() <= halfway {
-                        self.textseliters
-                            .push((self.resource.range(0, reftextselection.end()), true));
+                        self.textseliters.push((
+                            self.resource.range(0, reftextselection.end() + 1),
+                            true,
+                        ));
                     } else {
                         self.textseliters.push((
                             self.resource
-                                .range(reftextselection.end(), self.resource.textlen()),
+                                .range(reftextselection.end(), self.resource.textlen() + 1),
                             false, //search backwards!!
                         ));
                     }
